@@ -104,3 +104,45 @@ func LoopBreakPost(xs []int) int {
 	}
 	return -1
 }
+
+// ---- canaries for the "obligations only see the past" rule
+
+type counterBox struct{ n int }
+
+func bump(c *counterBox) {
+	c.n++
+}
+
+// the callee's postcondition (n > 0) must not help to prove its own precondition
+func PreFromPost(c *counterBox) int {
+	bump(c)
+	return c.n
+}
+
+// the facts about the result of make must not help the check in front of it
+func MakeNegative(n int) []int {
+	return make([]int, n)
+}
+
+// ---- canaries for the contract self-checks
+
+func NilBranch(p *counterBox) int {
+	if p == nil {
+		return 0
+	}
+	return p.n
+}
+
+type otherBox struct{ m string }
+
+func FrameHole(a *counterBox, b *otherBox) {
+	a.n = 1
+	b.m = "x"
+}
+
+type wire struct {
+	A int
+	B string
+}
+
+func UsesWire(w wire) int { return w.A }
